@@ -120,6 +120,23 @@ def binopOf : String → Option BinOp
   | "&&" => some .land | "||" => some .lor
   | _ => none
 
+def intTypeOf : String → Option IntT
+  | "int" => some ⟨true, 64⟩ | "int8" => some ⟨true, 8⟩ | "int16" => some ⟨true, 16⟩
+  | "int32" => some ⟨true, 32⟩ | "int64" => some ⟨true, 64⟩
+  | "uint" => some ⟨false, 64⟩ | "uint8" => some ⟨false, 8⟩ | "uint16" => some ⟨false, 16⟩
+  | "uint32" => some ⟨false, 32⟩ | "uint64" => some ⟨false, 64⟩ | "uintptr" => some ⟨false, 64⟩
+  | _ => none
+
+/-- `<<uint8` / `>>int16k`: shift by a typed constant count (`k`: declared constant; same model) -/
+def typedShiftOf (t : String) : Option (BinOp × IntT) :=
+  let ty (r : List Char) : Option IntT :=
+    let r := if r.getLast? == some 'k' then r.dropLast else r
+    intTypeOf (String.ofList r)
+  match t.toList with
+  | '<' :: '<' :: r => (ty r).map fun it => (BinOp.shl, it)
+  | '>' :: '>' :: r => (ty r).map fun it => (BinOp.shr, it)
+  | _ => none
+
 def unopOf : String → Option UnOp
   | "neg" => some .neg | "pos" => some .pos | "cpl" => some .cpl | "not" => some .not
   | _ => none
@@ -163,6 +180,11 @@ def ofOpt (r : Option Lit) (rest : List Lit) : StepRes :=
   | some v => .push v rest
   | none => .err
 
+def hugeTypedCount (x y : Lit) (it : IntT) : Bool :=
+  match convert y (.int it), cToInt x.val with
+  | some (.int n), some _ => decide (0 ≤ n) && decide (n > maxShift)
+  | _, _ => false
+
 def stepTok (stack : List Lit) (t : String) : StepRes :=
   match binopOf t with
   | some op =>
@@ -170,6 +192,12 @@ def stepTok (stack : List Lit) (t : String) : StepRes :=
      | y :: x :: rest => if hugeCount op x y then .huge else ofOpt (binaryExprUntyped op x y) rest
      | _ => .err)
   | none =>
+    match typedShiftOf t with
+    | some (op, it) =>
+      (match stack with
+       | y :: x :: rest => if hugeTypedCount x y it then .huge else ofOpt (shiftTypedCount op x y it) rest
+       | _ => .err)
+    | none =>
     match unopOf t with
     | some op => (match stack with | x :: rest => ofOpt (unaryExprUntyped op x) rest | _ => .err)
     | none =>
@@ -229,11 +257,34 @@ def showTVal (t : Target) : TVal → String
   | .float q => "ok " ++ (match t with | .float bits => showFloat bits q | _ => "?")
   | .complex a b => "ok " ++ (match t with | .complex bits => showFloat (bits / 2) a ++ " " ++ showFloat (bits / 2) b | _ => "?")
 
-def showBig : BigRes → String
-  | .int n => "ok " ++ toString n
-  | .rat q => "ok " ++ showRat q
-  | .floatExact q => "ok =" ++ showRat q
-  | .floatRounded => "ok ~"
+def showBig0 : BigRes → String
+  | .int n => toString n
+  | .rat q => showRat q
+  | .floatExact q => "=" ++ showRat q
+  | .floatRounded => "~"
+
+def showBig (r : BigRes) : String := "ok " ++ showBig0 r
+
+/-- the in-place modification the harness performs: `x.Add(x, x)` -/
+def doubleBig : BigRes → BigRes
+  | .int n => .int (n + n)
+  | .rat q => .rat (q + q)
+  | .floatExact q => .floatExact (q + q)
+  | .floatRounded => .floatRounded
+
+def allDistinct : List Nat → Bool
+  | [] => true
+  | p :: ps => !ps.contains p && allDistinct ps
+
+/-- op `m`: the compiled conversion executed three times, each result doubled in place afterwards;
+    printed: the value read at the third execution (for the function form and the loop form: the same
+    compiled closure in the model) and whether the three objects are distinct -/
+def showMutate (c : BigRes) : String :=
+  let (_, runs) := runBigFun c doubleBig 3 ⟨[]⟩
+  let third := match runs.getLast? with
+    | some (_, some v) => showBig0 v
+    | _ => "?"
+  "ok " ++ third ++ " " ++ third ++ " " ++ (if allDistinct (runs.map (·.1)) then "fresh" else "shared")
 
 def step (_ : Unit) (line : String) : Unit × String :=
   let toks := line.splitOn " "
@@ -263,6 +314,15 @@ def step (_ : Unit) (line : String) : Unit × String :=
          | (_, true) => "big"
          | (.error, _) => "reject"
          | (.ok l, _) => (match toMathBig l t with | some v => showBig v | none => "reject"))
+    else if mode == "m" then
+      (match (match ty with | "Int" => some BigTarget.int | "Rat" => some .rat | "Float" => some .float | _ => none) with
+       | none => "bad-op"
+       | some t =>
+         match runRpn rpn with
+         | (.huge, _) => "huge-shift"
+         | (_, true) => "big"
+         | (.error, _) => "reject"
+         | (.ok l, _) => (match toMathBig l t with | some v => showMutate v | none => "reject"))
     else "bad-op"
   | _ => "bad-op")
 
